@@ -1,4 +1,5 @@
 """C04 - every Python binding forwards to the declared C++ entity, faithfully (Engine E)."""
+from .. import rules_flow as RF
 from .. import rules_pybind as RP
 from .. import rules_alias as RA
 from .. import rules_inst as RI
@@ -36,3 +37,4 @@ def run(ctx, rep):
     rep.run(RI.rule_coverage, ctx, rep, "B8", min_sites=10)
     rep.run(RA.rule_mutate_only_fresh, ctx, rep, "B8", "gtwrap/template_instantiator",
             P1_EXEMPT, min_sites=20)
+    rep.run(RF.rule_locals_defined, ctx, rep, "U1", packages=("gtwrap/pybind_wrapper.py",), min_functions=3)
